@@ -617,6 +617,499 @@ mod imp {
                 }),
             });
         }
+        if prop == "C14" {
+            fn child_doc(body: &str) -> String {
+                format!(
+                    r##"<scxml xmlns="http://www.w3.org/2005/07/scxml" version="1.0" datamodel="rfsm-expression" name="kid"><datamodel><data id="cv" expr="0"/></datamodel>{}</scxml>"##,
+                    body
+                )
+            }
+            fn parent_doc(invokes: &str, extra_b: &str) -> String {
+                format!(
+                    r##"<scxml {ns} name="par"><datamodel><data id="v" expr="5"/></datamodel>
+<state id="a"><transition event="go" target="b"/><transition event="fin"><script>notify('fin')</script></transition></state>
+<state id="b">{invokes}
+ <onexit><script>mark('exit-b')</script></onexit>
+ <transition event="c1 c2"><script>mark('p-child-event', _event.name, _event.invokeid); notify(_event.name)</script></transition>
+ <transition event="done.invoke"><script>mark('p-done', _event.name, _event.invokeid); notify('done')</script></transition>
+ <transition event="leave" target="a"/>
+ <transition event="fin"><script>notify('fin')</script></transition>
+ <transition event="fw1"><script>mark('p-fw1'); notify('p-fw1')</script></transition>{extra_b}
+</state><state id="c"><onentry><script>notify('in-c')</script></onentry><transition event="fin"><script>notify('fin')</script></transition></state></scxml>"##,
+                    ns = NS,
+                    invokes = invokes,
+                    extra_b = extra_b
+                )
+            }
+            /// per thread: names of states entered first (to tell parent and children apart)
+            fn threads_entering(o: &Obs, state: &str) -> Vec<u32> {
+                let mut v: Vec<u32> = o
+                    .recs
+                    .iter()
+                    .filter_map(|(t, r)| match r {
+                        Rec::Enter(n) if n == state => Some(*t),
+                        _ => None,
+                    })
+                    .collect();
+                v.sort();
+                v.dedup();
+                v
+            }
+            fn marks_of(o: &Obs, tag: &str) -> Vec<Vec<String>> {
+                o.recs
+                    .iter()
+                    .filter_map(|(_, r)| match r {
+                        Rec::Mark { args, .. } if args.first().map(|a| a == tag).unwrap_or(false) => Some(args.clone()),
+                        _ => None,
+                    })
+                    .collect()
+            }
+            fn scen(name: &'static str, qb: usize, tb: usize, doc: String, script: Vec<(&'static str, &'static str)>, oracle: Oracle) -> Scenario {
+                // script: (event to send, notification to wait for ("" = none))
+                Scenario {
+                    name,
+                    quick_bound: qb,
+                    thorough_bound: tb,
+                    atomics: false,
+                    body: Box::new(move |log, _notes| {
+                        let doc = doc.clone();
+                        let script = script.clone();
+                        Box::new(move || {
+                            let ex = FsmExecutor::new_without_io_processor();
+                            let (tx, rx) = verif_sync::mpsc::channel::<String>();
+                            let sess = start_n(&ex, &doc, &log, &tx);
+                            for (ev, wait) in script {
+                                if !ev.is_empty() {
+                                    let _ = sess.sender.send(Box::new(Event::new_simple(ev)));
+                                }
+                                if !wait.is_empty() {
+                                    wait_for(&rx, &[wait]);
+                                }
+                            }
+                            cancel_and_join(sess);
+                        })
+                    }),
+                    oracle,
+                }
+            }
+            let inv_content = |id: &str, attrs: &str, child: &str| -> String {
+                format!(
+                    r##"<invoke id="{id}"{attrs}><param name="cv" expr="v"/><param name="undecl" expr="1"/><content>{child}</content><finalize><script>mark('finalize', _event.name)</script></finalize></invoke>"##,
+                    id = id,
+                    attrs = attrs,
+                    child = child
+                )
+            };
+            // A: the child sends one event and finishes
+            let child_a = child_doc(
+                r##"<state id="k"><onentry><script>mark('k-data', cv, isDefined(undecl))</script><send event="c1" target="#_parent"/></onentry><transition target="kf"/></state><final id="kf"/>"##,
+            );
+            v.push(scen(
+                "child-event-then-done",
+                1,
+                2,
+                parent_doc(&inv_content("kid", "", &child_a), ""),
+                vec![("go", "done")],
+                Box::new(|o: &Obs| {
+                    basic_outcome(o)?;
+                    let kids = threads_entering(o, "k");
+                    if kids.len() != 1 {
+                        return Err(("start-count".into(), format!("the invoke was started {} times", kids.len())));
+                    }
+                    let kd = marks_of(o, "k-data");
+                    if kd != vec![vec!["k-data".to_string(), "5".to_string(), "false".to_string()]] {
+                        return Err(("param-passing".into(), format!("child data after start: {:?} (declared cv must be 5, undeclared 'undecl' must not exist)", kd)));
+                    }
+                    let ce = marks_of(o, "p-child-event");
+                    if ce != vec![vec!["p-child-event".to_string(), "c1".to_string(), "kid".to_string()]] {
+                        return Err(("child-event".into(), format!("parent processed child events {:?}", ce)));
+                    }
+                    let dn = marks_of(o, "p-done");
+                    if dn.len() != 1 || dn[0][1] != "done.invoke.kid" {
+                        return Err(("done-invoke".into(), format!("done.invoke processed: {:?}", dn)));
+                    }
+                    // order in the parent: finalize(c1) before the transition content for c1, c1 before done
+                    let seq: Vec<String> = o
+                        .recs
+                        .iter()
+                        .filter_map(|(_, r)| match r {
+                            Rec::Mark { args, .. } if ["finalize", "p-child-event", "p-done"].contains(&args[0].as_str()) => Some(format!("{}:{}", args[0], args[1])),
+                            _ => None,
+                        })
+                        .collect();
+                    let exp = vec!["finalize:c1", "p-child-event:c1", "finalize:done.invoke.kid", "p-done:done.invoke.kid"];
+                    let exp2 = vec!["finalize:c1", "p-child-event:c1", "p-done:done.invoke.kid"];
+                    if seq != exp && seq != exp2 {
+                        return Err(("finalize-order".into(), format!("parent content order {:?}", seq)));
+                    }
+                    Ok(format!("{:?}", seq.len()))
+                }),
+            ));
+            // B: the parent leaves the invoking state while the child is sending and finishing
+            let child_b = child_doc(
+                r##"<state id="k"><onentry><send event="c1" target="#_parent"/><send event="c2" target="#_parent"/></onentry><transition target="kf"/></state><final id="kf"/>"##,
+            );
+            v.push(scen(
+                "leave-while-child-sends",
+                1,
+                2,
+                parent_doc(&inv_content("kid", "", &child_b), ""),
+                vec![("go", ""), ("leave", ""), ("fin", "fin")],
+                Box::new(|o: &Obs| {
+                    basic_outcome(o)?;
+                    let kids = threads_entering(o, "k");
+                    if kids.len() != 1 {
+                        return Err(("start-count".into(), format!("the invoke was started {} times", kids.len())));
+                    }
+                    // records of the parent thread after it exited b
+                    let pt = o.recs.first().map(|r| r.0).unwrap_or(0);
+                    let pos = o.recs.iter().position(|(t, r)| *t == pt && matches!(r, Rec::Exit(n) if n == "b"));
+                    if let Some(p) = pos {
+                        let late: Vec<String> = o.recs[p..]
+                            .iter()
+                            .filter_map(|(t, r)| match r {
+                                Rec::XRecv(e) if *t == pt && (e.invokeid.as_deref() == Some("kid") || e.name.starts_with("done.invoke")) => Some(e.name.clone()),
+                                _ => None,
+                            })
+                            .collect();
+                        if !late.is_empty() {
+                            let sig = if late.iter().all(|n| n.starts_with("done.invoke")) { "event-after-cancel:done.invoke" } else { "event-after-cancel" };
+                            return Err((sig.into(), format!("after the parent exited the invoking state (child cancelled) it still processed events of that child: {:?}", late)));
+                        }
+                    }
+                    let dn = marks_of(o, "p-done");
+                    if dn.len() > 1 {
+                        return Err(("done-invoke".into(), format!("done.invoke processed {} times", dn.len())));
+                    }
+                    let ce = marks_of(o, "p-child-event");
+                    let names: Vec<&str> = ce.iter().map(|m| m[1].as_str()).collect();
+                    if names != Vec::<&str>::new() && names != vec!["c1"] && names != vec!["c1", "c2"] {
+                        return Err(("child-event".into(), format!("child events processed {:?}", names)));
+                    }
+                    Ok(format!("child-events={} done={}", names.len(), dn.len()))
+                }),
+            ));
+            // C: the invoking state is entered and left within one macrostep: no invoke
+            let child_c = child_doc(r##"<state id="k"><onentry><send event="c1" target="#_parent"/></onentry></state>"##);
+            v.push(scen(
+                "entered-and-exited-in-one-macrostep",
+                0,
+                1,
+                parent_doc(&inv_content("kid", "", &child_c), r##"<transition target="c"/>"##),
+                vec![("go", "in-c"), ("fin", "fin")],
+                Box::new(|o: &Obs| {
+                    basic_outcome(o)?;
+                    let kids = threads_entering(o, "k");
+                    if !kids.is_empty() {
+                        return Err(("start-count".into(), format!("a state entered and exited within one macrostep started its invoke {} times", kids.len())));
+                    }
+                    Ok("no-invoke".into())
+                }),
+            ));
+            // D: autoforward
+            let child_d = child_doc(
+                r##"<state id="k"><onentry><script>notify('sid' + _sessionid)</script></onentry><transition event="*"><script>mark('k-got', _event.name); notify('k-' + _event.name)</script></transition></state>"##,
+            );
+            let doc_d = parent_doc(&inv_content("kid", r##" autoforward="true""##, &child_d), "");
+            v.push(Scenario {
+                name: "autoforward",
+                quick_bound: 0,
+                thorough_bound: 1,
+                atomics: false,
+                body: Box::new(move |log, _notes| {
+                    let doc = doc_d.clone();
+                    Box::new(move || {
+                        let ex = FsmExecutor::new_without_io_processor();
+                        let (tx, rx) = verif_sync::mpsc::channel::<String>();
+                        let sess = start_n(&ex, &doc, &log, &tx);
+                        let _ = sess.sender.send(Box::new(Event::new_simple("go")));
+                        // the child announces its session id
+                        let mut kid_sid = 0u32;
+                        while let Ok(m) = rx.recv() {
+                            if let Some(n) = m.strip_prefix("sid") {
+                                kid_sid = n.parse().unwrap_or(0);
+                                break;
+                            }
+                        }
+                        let _ = sess.sender.send(Box::new(Event::new_simple("fw1")));
+                        wait_for(&rx, &["p-fw1"]);
+                        // a probe sent directly to the child arrives after anything forwarded before
+                        let _ = ex.send_to_session(kid_sid, Event::new_simple("probe"));
+                        wait_for(&rx, &["k-probe"]);
+                        cancel_and_join(sess);
+                    })
+                }),
+                oracle: Box::new(|o: &Obs| {
+                    basic_outcome(o)?;
+                    let kg: Vec<String> = marks_of(o, "k-got").iter().map(|m| m[1].clone()).collect();
+                    if kg != vec!["fw1".to_string(), "probe".to_string()] {
+                        return Err(("autoforward".into(), format!("the parent processed external event fw1 while a child with autoforward=\"true\" was running; the child processed {:?} (expected fw1 before the probe)", kg)));
+                    }
+                    Ok("forwarded".into())
+                }),
+            });
+            // E: the invoking state is entered twice
+            let child_e = child_doc(r##"<state id="k"><onentry><send event="c1" target="#_parent"/></onentry></state>"##);
+            v.push(scen(
+                "reentered-invoking-state",
+                1,
+                2,
+                parent_doc(&inv_content("kid", "", &child_e), ""),
+                vec![("go", "c1"), ("leave", ""), ("go", "c1"), ("fin", "fin")],
+                Box::new(|o: &Obs| {
+                    basic_outcome(o)?;
+                    let kids = threads_entering(o, "k");
+                    if kids.len() != 2 {
+                        return Err(("start-count".into(), format!("two entries of the invoking state started the invoke {} times", kids.len())));
+                    }
+                    Ok("two-children".into())
+                }),
+            ));
+            // F: two invokes in one state
+            let two = format!(
+                "{}{}",
+                inv_content("kid1", "", &child_doc(r##"<state id="k"><onentry><send event="c1" target="#_parent"/></onentry><transition target="kf"/></state><final id="kf"/>"##)),
+                inv_content("kid2", "", &child_doc(r##"<state id="k"><onentry><send event="c2" target="#_parent"/></onentry><transition target="kf"/></state><final id="kf"/>"##))
+            );
+            v.push(scen(
+                "two-invokes-in-one-state",
+                1,
+                2,
+                parent_doc(&two, ""),
+                vec![("go", "done"), ("", "done")],
+                Box::new(|o: &Obs| {
+                    basic_outcome(o)?;
+                    let kids = threads_entering(o, "k");
+                    if kids.len() != 2 {
+                        return Err(("start-count".into(), format!("two invokes started {} children", kids.len())));
+                    }
+                    let mut ce: Vec<(String, String)> = marks_of(o, "p-child-event").iter().map(|m| (m[1].clone(), m[2].clone())).collect();
+                    ce.sort();
+                    if ce != vec![("c1".to_string(), "kid1".to_string()), ("c2".to_string(), "kid2".to_string())] {
+                        return Err(("child-event".into(), format!("child events with invoke ids: {:?}", ce)));
+                    }
+                    let mut dn: Vec<String> = marks_of(o, "p-done").iter().map(|m| m[1].clone()).collect();
+                    dn.sort();
+                    if dn != vec!["done.invoke.kid1".to_string(), "done.invoke.kid2".to_string()] {
+                        return Err(("done-invoke".into(), format!("{:?}", dn)));
+                    }
+                    Ok("ok".into())
+                }),
+            ));
+        }
+        if prop == "C15" {
+            // routing: a parent with an invoked child and a sibling; every target form once, literal and targetexpr,
+            // payload forms, replies through _event.origin / origintype
+            let obs = r##"<transition event="*"><script>mark('rx', _sessionid, _event.name, _event.sendid, _event.origintype)</script></transition>"##;
+            let child = format!(
+                r##"<scxml xmlns="http://www.w3.org/2005/07/scxml" version="1.0" datamodel="rfsm-expression" name="kid"><state id="k">
+<onentry><send event="k2p" target="#_parent"><param name="p" expr="7"/></send></onentry>
+<transition event="e_kid"><script>mark('rx', _sessionid, _event.name, _event.sendid, _event.origintype); mark('data', _event.name, _event.data.p)</script><send event="reply.kid" targetexpr="_event.origin" typeexpr="_event.origintype"/></transition>
+<transition event="e_kid_x"><script>mark('rx', _sessionid, _event.name, _event.sendid, _event.origintype)</script><send event="reply.kid" targetexpr="_event.origin" typeexpr="_event.origintype"/></transition>
+{obs}</state></scxml>"##,
+                obs = obs
+            );
+            let sib_doc = format!(
+                r##"<scxml {ns} name="sib"><state id="s">
+<transition event="e_sib_x"><script>mark('rx', _sessionid, _event.name, _event.sendid, _event.origintype); mark('data', _event.name, 'content', _event.data)</script><send event="reply.sib" targetexpr="_event.origin" typeexpr="_event.origintype"/></transition>
+<transition event="e_sib"><script>mark('rx', _sessionid, _event.name, _event.sendid, _event.origintype); mark('data', _event.name, _event.data.q, _event.data.w)</script><send event="reply.sib" targetexpr="_event.origin" typeexpr="_event.origintype"/></transition>
+{obs}</state></scxml>"##,
+                ns = NS,
+                obs = obs
+            );
+            let child = child.clone();
+            let obs: String = obs.to_string();
+            let par_doc = move |sib: u32| -> String {
+                format!(
+                    r##"<scxml {ns} name="par"><datamodel><data id="v" expr="3"/><data id="w" expr="'ww'"/></datamodel><state id="a">
+<invoke id="kid"><content>{child}</content></invoke>
+<transition event="go">
+ <send event="e_self" id="s1"/>
+ <send event="e_int" target="#_internal"/>
+ <send event="e_sib" target="#_scxml_{sib}" id="s2" namelist="w"><param name="q" expr="v + 1"/></send>
+ <send event="e_sib_x" targetexpr="'#_scxml_' + {sib}"><content expr="'body'"/></send>
+ <send event="e_kid" target="#_kid"><param name="p" expr="v"/></send>
+ <send event="e_kid_x" targetexpr="'#_' + 'kid'" idlocation="v"/>
+</transition>
+<transition event="e_int"><script>mark('internal', _event.name, _event.type)</script></transition>
+<transition event="reply k2p"><script>mark('rx', _sessionid, _event.name, _event.sendid, _event.origintype); notify(_event.name)</script></transition>
+<transition event="e_self"><script>mark('rx', _sessionid, _event.name, _event.sendid, _event.origintype); notify(_event.name)</script></transition>
+{obs}</state></scxml>"##,
+                    ns = NS,
+                    child = child,
+                    sib = sib,
+                    obs = obs
+                )
+            };
+            let sd = sib_doc.clone();
+            v.push(Scenario {
+                name: "routing-parent-child-sibling",
+                quick_bound: 0,
+                thorough_bound: 1,
+                atomics: false,
+                body: Box::new(move |log, notes| {
+                    let sd = sd.clone();
+                    let pd = par_doc.clone();
+                    Box::new(move || {
+                        let ex = FsmExecutor::new_without_io_processor();
+                        let (tx, rx) = verif_sync::mpsc::channel::<String>();
+                        let sib = start_n(&ex, &sd, &log, &tx);
+                        let par = start_n(&ex, &pd(sib.session_id), &log, &tx);
+                        notes.lock().unwrap().push(format!("par={} sib={}", par.session_id, sib.session_id));
+                        wait_for(&rx, &["k2p"]);
+                        let _ = par.sender.send(Box::new(Event::new_simple("go")));
+                        wait_for(&rx, &["e_self", "reply.kid", "reply.kid", "reply.sib", "reply.sib"]);
+                        cancel_and_join(par);
+                        cancel_and_join(sib);
+                    })
+                }),
+                oracle: Box::new(|o: &Obs| {
+                    basic_outcome(o)?;
+                    let note = o.notes.first().cloned().unwrap_or_default();
+                    let par: String = note.split(' ').next().unwrap_or("").trim_start_matches("par=").to_string();
+                    let sib: String = note.split(' ').nth(1).unwrap_or("").trim_start_matches("sib=").to_string();
+                    // (session, event) pairs received on external queues
+                    let mut rx: Vec<(String, String, String, String)> = vec![];
+                    let mut data: Vec<Vec<String>> = vec![];
+                    let mut internal: Vec<Vec<String>> = vec![];
+                    for (_, r) in &o.recs {
+                        if let Rec::Mark { args, .. } = r {
+                            match args[0].as_str() {
+                                "rx" => rx.push((args[1].clone(), args[2].clone(), args[3].clone(), args[4].clone())),
+                                "data" => data.push(args[1..].to_vec()),
+                                "internal" => internal.push(args[1..].to_vec()),
+                                _ => {}
+                            }
+                        }
+                    }
+                    let sessions: std::collections::BTreeSet<String> = rx.iter().map(|r| r.0.clone()).collect();
+                    let kid: String = sessions.iter().find(|s| **s != par && **s != sib).cloned().unwrap_or_default();
+                    let scxml_type = "http://www.w3.org/TR/scxml/#SCXMLEventProcessor";
+                    let mut expect: Vec<(String, String)> = vec![
+                        (par.clone(), "k2p".into()),
+                        (par.clone(), "e_self".into()),
+                        (sib.clone(), "e_sib".into()),
+                        (sib.clone(), "e_sib_x".into()),
+                        (kid.clone(), "e_kid".into()),
+                        (kid.clone(), "e_kid_x".into()),
+                        (par.clone(), "reply.kid".into()),
+                        (par.clone(), "reply.kid".into()),
+                        (par.clone(), "reply.sib".into()),
+                        (par.clone(), "reply.sib".into()),
+                    ];
+                    let mut got: Vec<(String, String)> = rx.iter().filter(|r| r.1 != fsm::EVENT_CANCEL_SESSION).map(|r| (r.0.clone(), r.1.clone())).collect();
+                    expect.sort();
+                    got.sort();
+                    if expect != got {
+                        return Err(("routing".into(), format!("(session, event) received on external queues: {:?}, expected {:?} (par={} sib={} kid={})", got, expect, par, sib, kid)));
+                    }
+                    if internal != vec![vec!["e_int".to_string(), "internal".to_string()]] {
+                        return Err(("routing-internal".into(), format!("'#_internal' delivery: {:?}", internal)));
+                    }
+                    for r in &rx {
+                        if r.1 != fsm::EVENT_CANCEL_SESSION && r.3 != scxml_type {
+                            return Err(("origintype".into(), format!("event {} in session {} has origintype {:?}", r.1, r.0, r.3)));
+                        }
+                    }
+                    let sid_of = |ev: &str| rx.iter().find(|r| r.1 == ev).map(|r| r.2.clone()).unwrap_or_default();
+                    if sid_of("e_self") != "s1" || sid_of("e_sib") != "s2" {
+                        return Err(("sendid".into(), format!("sendid of e_self {:?} (sent s1), of e_sib {:?} (sent s2)", sid_of("e_self"), sid_of("e_sib"))));
+                    }
+                    let gen = sid_of("e_kid_x");
+                    if !(gen.starts_with("a.") && gen.len() > 2) {
+                        return Err(("generated-id".into(), format!("send with idlocation in state a generated id {:?} (expected a.<platformid>)", gen)));
+                    }
+                    data.sort();
+                    let exp_data = vec![
+                        vec!["e_kid".to_string(), "3".to_string()],
+                        vec!["e_sib".to_string(), "4".to_string(), "ww".to_string()],
+                    ];
+                    let have: Vec<Vec<String>> = data.iter().filter(|d| d[0] == "e_kid" || d[0] == "e_sib").cloned().collect();
+                    if have != exp_data {
+                        return Err(("payload".into(), format!("param data arrived as {:?}, expected {:?}", have, exp_data)));
+                    }
+                    if let Some(d) = data.iter().find(|d| d[0] == "e_sib_x") {
+                        if d.len() < 3 || d[2] != "body" {
+                            return Err(("payload".into(), format!("content data arrived as {:?}", d)));
+                        }
+                    }
+                    Ok("routed".into())
+                }),
+            });
+            // uniqueness of session ids and generated ids when sessions start concurrently
+            let udoc = format!(
+                r##"<scxml {ns} name="u"><datamodel><data id="i1" expr="''"/><data id="i2" expr="''"/></datamodel><state id="a"><onentry>
+<send event="x1" idlocation="i1"/><send event="x2" idlocation="i2"/><script>mark('ids', _sessionid, i1, i2)</script></onentry></state></scxml>"##,
+                ns = NS
+            );
+            for (nsess, sname, qb, tb) in [(2usize, "concurrent-starts-unique-ids-2-sessions", 1usize, 2usize), (3, "concurrent-starts-unique-ids-3-sessions", 0, 1)] {
+            let udoc = udoc.clone();
+            v.push(Scenario {
+                name: sname,
+                quick_bound: qb,
+                thorough_bound: tb,
+                atomics: true,
+                body: Box::new(move |log, _notes| {
+                    let udoc = udoc.clone();
+                    Box::new(move || {
+                        let ex = FsmExecutor::new_without_io_processor();
+                        // documents are parsed up-front (the reader's id counters are not the subject);
+                        // what runs concurrently is session start and the sessions' own id generation
+                        let prepared: Vec<(Box<rufsm::fsm::Fsm>, ActionWrapper)> = (0..nsess)
+                            .map(|_| {
+                                let mut fsm = parse(&udoc).expect("parse");
+                                fsm.tracer = Box::new(Recorder::new(log.clone()));
+                                let mut actions = ActionWrapper::new();
+                                actions.add_action("mark", Box::new(MarkAction { current: globals().current.clone() }));
+                                (fsm, actions)
+                            })
+                            .collect();
+                        let mut hs = vec![];
+                        let mut it = prepared.into_iter();
+                        let first = it.next().unwrap();
+                        for (fsm, actions) in it {
+                            let ex2 = ex.clone();
+                            hs.push(spawn(move || {
+                                let s = fsm::start_fsm_with_data_and_finish_mode(fsm, actions, Box::new(ex2), &[], FinishMode::KEEP_CONFIGURATION);
+                                cancel_and_join(s);
+                            }));
+                        }
+                        let s0 = fsm::start_fsm_with_data_and_finish_mode(first.0, first.1, Box::new(ex.clone()), &[], FinishMode::KEEP_CONFIGURATION);
+                        cancel_and_join(s0);
+                        for h in hs {
+                            let _ = h.join();
+                        }
+                    })
+                }),
+                oracle: Box::new(move |o: &Obs| {
+                    basic_outcome(o)?;
+                    let mut sids = vec![];
+                    let mut ids = vec![];
+                    for (_, r) in &o.recs {
+                        if let Rec::Mark { args, .. } = r {
+                            if args[0] == "ids" {
+                                sids.push(args[1].clone());
+                                ids.push(args[2].clone());
+                                ids.push(args[3].clone());
+                            }
+                        }
+                    }
+                    if sids.len() != nsess {
+                        return Err(("sessions".into(), format!("{} of {} sessions ran their onentry", sids.len(), nsess)));
+                    }
+                    let us: std::collections::BTreeSet<&String> = sids.iter().collect();
+                    if us.len() != sids.len() {
+                        return Err(("duplicate-session-id".into(), format!("session ids {:?}", sids)));
+                    }
+                    let ui: std::collections::BTreeSet<&String> = ids.iter().collect();
+                    if ui.len() != ids.len() || ids.iter().any(|i| i.is_empty()) {
+                        return Err(("duplicate-generated-id".into(), format!("generated send ids {:?}", ids)));
+                    }
+                    Ok("unique".into())
+                }),
+            });
+            }
+        }
         if prop == "C17" {
             let simple: Oracle = Box::new(|o: &Obs| {
                 basic_outcome(o)?;
